@@ -373,6 +373,8 @@ def _first_spline(model_plain):
 
 
 def _spec_interval(spec):
+    if spec.get("kind") == "tri_spline":
+        return [-1.0, 1.0]
     if "interval" in spec:
         return [float(v) for v in spec["interval"]]
     for it in spec.get("items", []):
@@ -382,6 +384,10 @@ def _spec_interval(spec):
 
 
 def _spec_max_val(spec):
+    if spec.get("kind") == "tri_spline":
+        return float(spec.get("tanh_max_val", 3.0))
+    if spec.get("kind") == "bnaf":
+        return {None: 3.0, "leaky1": 1.0, "leaky8": 8.0}.get(spec.get("activation"), 3.0)
     for it in spec.get("items", []):
         if it[0] in ("LeakyTanh", "InvLeakyTanh"):
             return float(it[1])
@@ -397,7 +403,7 @@ def resolve_symbol(sym, coord, knot_index, spec, spline):
     if spline is not None:
         lo, hi = spline[0]
     mv = _spec_max_val(spec)
-    deep = spec["kind"] in ("flow", "scan_vspline")
+    deep = spec["kind"] in ("flow", "scan_vspline") or (spec["kind"] in ("bnaf", "tri_spline") and spec.get("mode") != "single")
     nudge = 0
     if sym[-1] in "+-" and sym[:-1] in ("lo", "hi", "knot", "max_val", "tanh_max_val", "1"):
         nudge = 1 if sym[-1] == "+" else -1
@@ -442,7 +448,7 @@ def make_data(world, model_plain):
     if cond_dim:
         cond = r.normal(size=(n, cond_dim)).astype(np.float32)
     x = None
-    if d.get("source", "model") == "model":
+    if d.get("source", "model") == "model" and not zoo.numeric_inverse_only(world["model"]):
         try:
             x = _sample(model_plain, jr.PRNGKey(d["seed"] % (2**31)), n, None if cond is None else jnp.asarray(cond))
             x = np.asarray(x, dtype=np.float32)
